@@ -860,4 +860,106 @@ example : (0:ℝ) < 1 ∧ drive₀.df ≠ 0 ∧ 0 < (build oBulk).theoreticalPow
   simp [Mdl.theoreticalPower, build, oBulk, drivingPowerLorentzian, drive₀]
   norm_num
 
+/-! ## The glue of `calibrate_force` -/
+
+/-- `calibrate_force` accepts its keyword arguments exactly when: no axial and no carried-over drag
+    with active calibration, no fixed diode parameter with a fast sensor, and active calibration
+    comes with driving data and a positive frequency guess.  Every rejection is a `ValueError`. -/
+theorem calibrate_force_accepts_iff (a : CalibArgs ℝ) :
+    (calibValidate a = none ↔
+      (¬(a.active = true ∧ a.o.axial = true) ∧ ¬(a.active = true ∧ ∃ g, a.drag = some g ∧ g ≠ 0) ∧
+       ¬((a.fixedD.isSome = true ∨ a.fixedA.isSome = true) ∧ a.o.fast = true) ∧
+       (a.active = true → a.hasDriving = true ∧ ∃ g, a.guess = some g ∧ 0 < g))) ∧
+    (∀ e, calibValidate a = some e → e = .value) := by
+  have hd := optTruthy_real a.drag
+  constructor
+  · unfold calibValidate
+    rcases a with ⟨o, drag, fd, al, active, hasDriving, guess⟩
+    simp only at hd ⊢
+    split_ifs with c1 c2 c3 c4 c5
+    · simp_all
+    · simp_all
+    · simp_all
+    · simp_all
+    · cases guess with
+      | none => simp_all
+      | some v =>
+        simp_all [RealLike.lt, zero_lit]
+        rcases c5.2 with h | h
+        · have : v = 0 := by
+            by_contra hne
+            have := (truthy_real v).mpr hne
+            rw [h] at this; cases this
+          exact this.le
+        · exact h.le
+    · cases guess with
+      | none => simp_all
+      | some v =>
+        simp_all [RealLike.lt, truthy_real, zero_lit]
+        intro h
+        exact lt_of_le_of_ne (c5 h).2 (Ne.symm (c5 h).1)
+  · intro e he
+    unfold calibValidate at he
+    split_ifs at he <;> simp_all
+noncomputable def args₀ : CalibArgs ℝ where
+  o := oBulk
+  drag := none
+  fixedD := none
+  fixedA := none
+  active := false
+  hasDriving := false
+  guess := none
+example : calibValidate args₀ = none := by
+  simp [calibValidate, args₀, optTruthy]
+
+/-- what an accepted call has built when the fit starts: the constructor's model (with
+    `axial=False` for active calibration), the carried-over drag if truthy, and the filter:
+    `FixedDiodeModel` iff a fixed parameter was given, `NoFilter` iff fast sensor, else `DiodeModel` -/
+theorem calibrate_force_setup (a : CalibArgs ℝ) (m : Mdl ℝ) (flt : Filt ℝ)
+    (h : calibSetup a = .ok (m, flt)) :
+    calibValidate a = none ∧ flt = chooseFilter a ∧ flt.validate = none ∧
+    (∃ m0, mkModel (if a.active then { a.o with axial := false } else a.o) = .ok m0 ∧
+      m = if optTruthy a.drag then m0.setDrag (a.drag.getD 0.0) else m0) ∧
+    (a.o.fast = true → flt = .noFilter) ∧ (a.o.fast = false → flt ≠ .noFilter) := by
+  unfold calibSetup at h
+  split at h
+  · cases h
+  · rename_i hv
+    split at h
+    · cases h
+    · rename_i m0 hm0
+      cases hfv : (chooseFilter a).validate with
+      | some e => simp [hfv] at h
+      | none =>
+        simp only [hfv] at h
+        injection h with h
+        injection h with h1 h2
+        refine ⟨hv, h2.symm, by rw [← h2]; exact hfv, ⟨m0, hm0, h1.symm⟩, ?_, ?_⟩
+        · intro hf
+          have hacc := ((calibrate_force_accepts_iff a).1.mp hv).2.2.1
+          rw [← h2]
+          unfold chooseFilter
+          by_cases hfix : (a.fixedD.isSome || a.fixedA.isSome) = true
+          · exact absurd ⟨by simpa using hfix, hf⟩ hacc
+          · simp [hfix, hf]
+        · intro hf
+          rw [← h2]
+          unfold chooseFilter
+          by_cases hfix : (a.fixedD.isSome || a.fixedA.isSome) = true <;> simp [hfix, hf]
+example : ∃ m flt, calibSetup args₀ = .ok (m, flt) := by
+  refine ⟨build oBulk, .diode, ?_⟩
+  have hv : calibValidate args₀ = none := by simp [calibValidate, args₀, optTruthy]
+  have hm : mkModel (if args₀.active = true then { args₀.o with axial := false } else args₀.o)
+      = .ok (build oBulk) := by simp [args₀, oBulk_ok]
+  simp only [calibSetup, hv, hm]
+  simp [args₀, optTruthy, chooseFilter, Filt.validate, oBulk]
+
+/-- ORDER of errors: the `ValueError`s of `calibrate_force` come before the constructor's, e.g.
+    active + axial is a `ValueError` even where the constructor alone (hydro + axial) would raise
+    `NotImplementedError` -/
+theorem calibrate_force_value_error_first (a : CalibArgs ℝ) (h : a.active = true)
+    (hax : a.o.axial = true) : calibSetup a = .error .value := by
+  simp [calibSetup, calibValidate, h, hax]
+example : (true = true) := rfl
+
 end Verif.C11
